@@ -1,15 +1,48 @@
 package main
 
-// C03: GoLite targets (docs/GOLITE_NOTES.md).
+// C03: GoLite targets (docs/GOLITE_NOTES.md). Theorems: coq/props/C03_Generated.v
+// (proofs in coq/theories/C03_GenProofs.v), table in docs/audit/C03.md section "GoLite".
 func init() {
+	const v = ".../verifier"
+	const tp = ".../verifier/trustpolicy"
+	const core = "github.com/notaryproject/notation-core-go/signature"
 	Register("C03", []Target{
-		{Pkg: "crypto/x509", Type: "Certificate", Opaque: true},
+		{Pkg: "crypto/x509", Type: "Certificate", Opaque: true, Views: map[string]string{"Subject.String()": "string"}},
 		{Pkg: ".../internal/container", Func: "New"},
 		{Pkg: ".../internal/container", Func: "Set.Add"},
 		{Pkg: ".../internal/container", Func: "Set.Contains"},
-		{Pkg: ".../verifier", Func: "loadX509TrustStoresWithType"},
-		{Pkg: ".../verifier", Func: "loadX509TrustStores"},
-		{Pkg: ".../verifier", Func: "loadX509TSATrustStores"},
-		{Pkg: ".../verifier", Func: "isTSATrustStoreInPolicy"},
+		// scheme -> store type, listed stores of that type only, load errors propagate
+		{Pkg: v, Func: "loadX509TrustStoresWithType"},
+		{Pkg: v, Func: "loadX509TrustStores"},
+		{Pkg: v, Func: "loadX509TSATrustStores"},
+		{Pkg: v, Func: "isTSATrustStoreInPolicy"},
+		// the authenticity decision around notation-core-go (oracle) and what ends the verification
+		// verifyAuthenticity is kept as documentation: refused at verifier/verifier.go:771
+		// (&outcome.EnvelopeContent.SignerInfo: address-of a field path behind a pointer parameter),
+		// next would be :773 `switch err.(type)` (type switch on an error) and :782 err.Error().
+		// Its `len(trustCerts) < 1` rule and the classification of core's answer stay tied to the code
+		// by the correspondence harness only (model: C03_Model.verify_authenticity).
+		{Pkg: core, Func: "VerifyAuthenticity", Oracle: true},
+		{Pkg: v, Func: "verifyAuthenticity"},
+		{Pkg: v, Func: "isCriticalFailure"},
+		// which statement's trust store list is used
+		{Pkg: ".../internal/slices", Func: "Contains"},
+		{Pkg: tp, Func: "getArtifactPathFromReference"},
+		{Pkg: tp, Func: "validateRegistryScopeFormat"},
+		{Pkg: tp, Func: "SignatureVerification.clone", NilIsEmpty: true},
+		{Pkg: tp, Func: "(*OCITrustPolicy).clone"},
+		{Pkg: tp, Func: "(*BlobTrustPolicy).clone"},
+		{Pkg: tp, Func: "(*OCIDocument).GetApplicableTrustPolicy"},
+		{Pkg: tp, Func: "(*BlobDocument).GetApplicableTrustPolicy"},
+		{Pkg: tp, Func: "(*BlobDocument).GetGlobalTrustPolicy"},
+		// the identity step that may overwrite the authenticity result
+		{Pkg: ".../internal/pkix", Func: "ParseDistinguishedName", Oracle: true},
+		{Pkg: ".../internal/pkix", Func: "IsSubsetDN"},
+		{Pkg: v, Func: "verifyX509TrustedIdentities"},
+		// Not listed: (*verifier).processSignature / Verify / VerifyBlob (depend on verifyAuthenticity;
+		// besides: comma-ok type assertions verifier.go:433, plugin interfaces, err.Error() :278/:360),
+		// verifyTimestamp / verifyAuthenticTimestamp (translated for C06, targets_c06.go; C03 needs only
+		// isTSATrustStoreInPolicy and loadX509TSATrustStores of that path),
+		// truststore.(*x509TrustStore).GetCertificates (C13, outside the subset).
 	})
 }
